@@ -188,9 +188,22 @@ def run(ctx):
              why_fail=f"{sd!r}"[:200])
     # type dispatch: dumped type strings are keys the builder dispatches on
     cf = ctx.func("pyxform.builder:SurveyElementBuilder.create_survey_element_from_dict", "C16.R2")
-    lits = {n.value for n in ast.walk(cf.node) if isinstance(n, ast.Constant) and isinstance(n.value, str)}
-    sc = ctx.consts.get("pyxform.builder", "SECTION_CLASSES", "C16.R2")
-    r2.check({"group", "repeat", "survey"} <= set(sc) and {"xml-external", "csv-external", "entity"} <= lits, "builder:dispatch", "group/repeat/survey/external/entity types written by the dump are dispatched by the builder", cf.loc())
+    bcls_d = repo.cls("pyxform.builder:SurveyElementBuilder")
+    for typ, want_maker in (("group", "section"), ("repeat", "section"), ("survey", "section"), ("loop", "loop"), ("xml-external", "ExternalInstance"), ("csv-external", "ExternalInstance"),
+                            ("entity", "EntityDeclaration"), ("text", "question"), ("select one", "question"), ("calculate", "question")):
+        made = []
+        hooks_d = {"fnname:_create_section_from_dict": lambda i, a, k, n: (made.append("section"), Obj(None, {"setvalues_by_triggering_ref": {}, "setgeopoint_by_triggering_ref": {}}, name="sec"))[1],
+                   "fnname:_create_loop_from_dict": lambda i, a, k, n: made.append("loop"), "fnname:_create_question_from_dict": lambda i, a, k, n: made.append("question"),
+                   "fnname:_save_trigger": lambda i, a, k, n: None,
+                   "new:ExternalInstance": lambda i, a, k, n: made.append("ExternalInstance"), "new:EntityDeclaration": lambda i, a, k, n: made.append("EntityDeclaration")}
+        itd = ctx.interp("C16.R2", hooks=hooks_d)
+        itd.reset([])
+        bobj = Obj(bcls_d, {"setvalues_by_triggering_ref": {}, "setgeopoint_by_triggering_ref": {}, "_add_none_option": False, "_sections": {}}, name="builder")
+        try:
+            itd.call_function(cf, [bobj], {"d": {"type": typ, "name": "n", "children": []}}, None, cf.node)
+        except Raised as e:
+            made.append(f"raises {e.exc_name}")
+        r2.check(made == [want_maker], f"builder:dispatch[{typ}]", f"a dumped `{typ}` element is rebuilt by the {want_maker} maker", cf.loc(), why_fail=f"made {made}")
     rules += [r1, r2]
 
     # ------------------------------------------------------------------ R3
